@@ -536,6 +536,70 @@ def singleton_programs():
 # random well-typed programs (seeded)
 # =============================================================================================
 # =============================================================================================
+# C19: every form the printers can meet
+# =============================================================================================
+def ObjK(pairs):
+    return {"k": "obj", "fs": [{"key": k, "e": e} for k, e in pairs]}
+
+
+def printer_programs():
+    progs = []
+
+    def add(name, fns, globs=(), **feats):
+        progs.append(Program("pr_" + name, fns, globs, feats=dict(feats, family="printer", template=name)))
+
+    def main(*stmts):
+        return {"main": Fn([], Block(list(stmts)))}
+
+    strings = ["plain", "", "a\"b", "back\\slash", "line1\nline2", "tab\there", "{braces} %d %s", "caf\u00e9 \u65e5\u672c", "'single'", "a\\\"b\n",
+               "  lead and trail  ", "semi; colon", "// not a comment", "/* nor this */"]
+    add("strings", main(*[Print(S(x), MCall(S(x), "len")) for x in strings]))
+    add("strings_nested", main(Let("l", List(*[S(x) for x in strings[:8]])), Print(V("l")),
+                               Let("o", Obj(a=S("x\ny"), b=List(S("q\"r")), c=Obj(d=S("deep\nline")))), Print(V("o")),
+                               Print(Mem(V("o"), "a"), Idx(Mem(V("o"), "b"), I(0)), Mem(Mem(V("o"), "c"), "d")),
+                               Print(Match(S("a\"b"), [([S("a\"b")], S("hit\n1")), ([S("x"), S("y\\")], S("other"))], S("dflt")))))
+    add("string_keys", main(Let("o", ObjK([("plain", I(1)), ("with space", I(2)), ("kebab-case", I(3)), ("9start", I(4)), ("quote\"d", I(5))])), Print(V("o")),
+                            Let("j", MCall(V("o"), "to_json")), Print(V("j"))))
+    # nested blocks as values, if / else chains, match with several literals and a default, try as a value
+    add("nested_values", main(
+        Let("v", Block([Let("a", I(1))], Block([Let("b", Bin("+", V("a"), I(1)))], Block([], Bin("*", V("b"), I(3)))))), Print(V("v")),
+        Let("w", If(Bin(">", V("v"), I(5)), Block([Let("t", I(1))], If(Bin("==", V("t"), I(1)), Block([], S("a")), Block([], S("b")))), Block([], S("c")))), Print(V("w")),
+        Let("m", Match(V("v"), [([I(1), I(2), I(3)], S("low")), ([I(6)], Block([Let("q", S("si"))], Bin("+", V("q"), S("x"))))], Match(V("w"), [([S("a")], S("nested"))], S("nd")))), Print(V("m")),
+        Let("t", Try(Block([Let("z", I(0)), Expr(If(Bin("==", V("z"), I(0)), Block([Expr(Call("throw", S("boom\n2")))])))], Bin("+", V("z"), I(1))), "e",
+                     Block([Print(S("caught"), Mem(V("e"), "message"))], Un("-", I(1))))), Print(V("t")),
+        Expr(Block([Expr(Block([Expr(Block([Print(S("deep"))]))]))])),
+    ))
+    add("operators", main(
+        Let("a", I(7)), Let("b", I(2)), Let("f", F(5, 1)), Let("t", B(True)),
+        Print(Bin("-", Bin("-", V("a"), V("b")), I(1)), Bin("-", V("a"), Bin("-", V("b"), I(1))), Bin("/", Bin("*", V("a"), V("b")), I(3)), Bin("*", V("a"), Bin("/", V("b"), I(3)))),
+        Print(Bin("**", I(2), Bin("**", I(3), I(2))), Bin("**", Bin("**", I(2), I(3)), I(2)), Un("-", Bin("**", I(2), I(2))), Bin("**", Un("-", I(2)), I(2))),
+        Print(Bin("&&", V("t"), Bin("||", B(False), V("t"))), Bin("||", Bin("&&", V("t"), B(False)), V("t")), Un("!", Bin("==", V("a"), V("b"))), Bin("==", Un("!", V("t")), B(False))),
+        Print(Bin("<<", I(1), Bin("+", V("b"), I(1))), Bin("+", Bin("<<", I(1), V("b")), I(1)), Bin("|", Bin("&", V("a"), I(3)), I(8)), Bin("&", V("a"), Bin("|", I(3), I(8))), Bin("^", V("a"), V("b"))),
+        Print(Un("-", Un("-", V("a"))), Un("-", V("f")), Un("?", Un("?", V("a"))), Un("!", Un("!", V("t")))),
+        Print(As(V("a"), "float"), As(Bin("+", V("a"), V("b")), "float"), Bin("+", As(V("a"), "float"), V("f")), As(V("f"), "int")),
+        Print(Bin("<", Bin("+", V("a"), I(1)), Bin("*", V("b"), I(9))), Bin("!=", Bin("%", V("a"), V("b")), I(0))),
+    ))
+    add("statements", {
+        "acc": Fn(["n", "l"], Block([Let("s", I(0)), For("x", V("l"), Block([Expr(If(Bin("==", V("x"), V("n")), Block([Continue()]))), Expr(Asg(V("s"), V("x"), "+="))])), Ret(V("s"))]), "int", ["int", "[int]"]),
+        "find": Fn(["l"], Block([Let("i", I(0)), Loop(Block([Expr(If(Bin(">=", V("i"), MCall(V("l"), "len")), Block([Break()]))),
+                                                             Expr(If(Bin("==", Idx(V("l"), V("i")), I(3)), Block([Ret(Un("?", V("i")))]))), Expr(Asg(V("i"), I(1), "+="))]))], NoneV()), "?int", ["[int]"]),
+        "main": Fn([], Block([Let("l", List(I(1), I(2), I(3))), Print(Call("acc", I(2), V("l")), Call("find", V("l")), Call("find", List(I(9)))),
+                              Let("k", I(0)), While(Bin("<", V("k"), I(3)), Block([Expr(Asg(V("k"), I(1), "+="))])), Print(V("k")),
+                              For("i", Range(I(0), I(2), True), Block([Print(V("i"))])), For("c", S("ab"), Block([Print(V("c"))])),
+                              Let("o", Obj(n=I(1), l=List(I(1)))), Expr(Asg(Mem(V("o"), "n"), I(5), "*=")), Expr(Asg(Idx(Mem(V("o"), "l"), I(0)), I(7))), Print(V("o")),
+                              Let("g", FnLit(["a", "b"], Block([Ret(Bin("+", V("a"), MCall(V("b"), "len")))]), "int", ["int", "str"])), Print(CallV(V("g"), I(1), S("xy")))]))})
+    add("types", {
+        "ids": Fn(["a", "b", "c", "d", "e"], Block([Print(V("a"), V("b"), V("c"), V("d"), CallV(V("e"), I(1)))]), "null",
+                  ["[[int]]", "?[str]", "{ x: int, y: ?str }", "{ ? }", "fn(v: int) -> [int]"]),
+        "main": Fn([], Block([Let("o", Obj(x=I(1), y=Un("?", S("s"))), "{ x: int, y: ?str }"), Let("n", NoneV(), "?[str]"),
+                              Let("ao", As(Obj(k=I(1)), "{ ? }")),
+                              Expr(Call("ids", List(List(I(1))), V("n"), V("o"), V("ao"), FnLit(["v"], Block([], List(V("v"))), "[int]")))]))})
+    add("globals", {"main": Fn([], Block([Print(V("gi"), V("gs"), V("gl"), V("go"), V("gn"))]))},
+        globs=[("gi", Un("-", I(4))), ("gs", S("g\"s\n")), ("gl", List(List(I(1)), List(I(2), I(3)))), ("go", Obj(a=I(1), b=S("x"))), ("gn", Bin("*", I(2), Bin("+", I(3), I(4))))])
+    return progs
+
+
+# =============================================================================================
 # function literals that use the variables of their surroundings (lexical scoping, by reference)
 # =============================================================================================
 def closure_programs():
